@@ -349,6 +349,14 @@ def gen_cases(ctx):
             behs = rest[:1] + [first] + rest[1:]
         yield [dict({"req": "request", "id": f"slow-{j}-{i}", "beh": b}, **({"burst": True} if i == 0 else {}))
                for i, b in enumerate(behs)]
+    # bursts in which several answers in a row carry no message: every one of them needs its own synthesised terminal
+    # message, whatever the hand-over of the previous one was still doing when the next exchange began
+    for j in range(30 if ctx.tier == "quick" else 400):
+        behs = [dict(rng.choice(quiet), delay=rng.choice([0, 0.05, 0.2])) for _ in range(rng.randint(2, 5))]
+        if j % 4 == 3:
+            behs.insert(rng.randrange(len(behs) + 1), dict(ok_first, delay=0.05))
+        yield [dict({"req": "request", "id": f"quiet-{j}-{i}", "beh": b}, **({"burst": True} if i == 0 else {}))
+               for i, b in enumerate(behs)]
     # pairs / seeded sequences
     if ctx.tier == "thorough":
         for a, b in itertools.product(singles[::3], singles[::5]):
